@@ -3,6 +3,7 @@
 From Coq Require Import List Arith Bool Permutation.
 Require Import TT.Model.Base TT.Model.Topo TT.Model.Kahn.
 Require Import TT.Proofs.TopoProofs TT.Proofs.KahnProofs TT.Proofs.Bridge TT.Proofs.C20Extra.
+Require Import TT.Spec.P20 TT.Proofs.P20Sound TT.Proofs.P20KahnSound.
 Import ListNotations.
 
 Section C20.
@@ -61,6 +62,37 @@ Theorem C20_transitive_on_cyclic_refuted :
     reach g u w /\ ~ reach g w u /\ idx_before out u w.
 Proof. exact transitive_on_cyclic_refuted. Qed.
 
+(* The run-time oracles applied to what the IMPLEMENTATION returned (Spec/P20.v, extracted)
+   decide exactly the statements above: a returned list passes iff it is duplicate free,
+   consists of exactly the reachable nodes and respects every non-cyclic dependency; a
+   resolver answer passes iff it is a valid topological order of an acyclic graph, or a
+   circular-dependency report on a cyclic one. *)
+Section C20_oracles.
+Context {node : Type} {ED : EqDec node}.
+Theorem C20_topo_oracle_exact : forall (g : Topo.graph node) (req out : list node),
+  topo_ok_b g req out = true <->
+  (NoDup out /\ (forall n, In n out <-> exists r, In r req /\ reach g r n) /\
+   (forall u v, In u out -> edge g u v -> ~ reach g v u -> idx_before out v u)).
+Proof. exact topo_ok_b_spec. Qed.
+
+Theorem C20_kahn_oracle_exact : forall (ns : list node) (deps : list (Kahn.dep node)) (res : option (list node)),
+  NoDup ns -> closed ns deps ->
+  (kahn_ok_b ns deps res = true <->
+   match res with
+   | Some l => Bridge.acyclic deps /\ Permutation l ns /\ (forall d, In d deps -> before (snd d) (fst d) l)
+   | None => ~ Bridge.acyclic deps
+   end).
+Proof. exact kahn_ok_b_spec. Qed.
+
+(* consistency of model and oracle: the model's own answers always pass *)
+Theorem C20_model_passes_oracles : forall (g : Topo.graph node) (req : list node) fuel out
+                                          (order : list node) (deps : list (Kahn.dep node)),
+  (topo_sort fuel g req = Some out -> topo_ok_b g req out = true) /\
+  (NoDup order -> closed order deps ->
+   kahn_ok_b order deps (match kahn order deps with Ok l => Some l | _ => None end) = true).
+Proof. intros. split; [apply topo_sort_passes_oracle | apply kahn_passes_oracle]. Qed.
+End C20_oracles.
+
 (* non-vacuity: concrete inputs meet the premises and give non-trivial results *)
 Example C20_ex_acyclic : acyclic [(1, [2]); (2, [])] /\ ~ acyclic [(1, [1])].
 Proof. split.
@@ -91,3 +123,6 @@ Print Assumptions C20_kahn_ok_iff.
 Print Assumptions C20_kahn_valid.
 Print Assumptions C20_kahn_never_out_of_fuel.
 Print Assumptions C20_transitive_on_cyclic_refuted.
+Print Assumptions C20_topo_oracle_exact.
+Print Assumptions C20_kahn_oracle_exact.
+Print Assumptions C20_model_passes_oracles.
